@@ -68,8 +68,9 @@ def ancestors(P, i):
 
 
 class Model:
-    def __init__(self, P, tags, with_comment, with_text):
+    def __init__(self, P, tags, with_comment, with_text, keyed=()):
         self.P, self.tags, self.n = P, tags, len(P)
+        self.keyed = set(keyed)      # elements carrying the attribute k
         self.extra = []
         if with_text and self.n > 1:
             self.extra.append('T')
@@ -180,6 +181,10 @@ class Model:
             cand = [y for y in self.axis(axis, x) if self.test(test, y)]
             if pred == 'pos':
                 cand = [y for k, y in enumerate(cand, 1) if k == n]
+            elif pred == 'position()':
+                cand = list(cand)          # [position()] is true for every item
+            elif pred == 'haskey':
+                cand = [y for y in cand if y in self.keyed]
             elif pred == 'last':
                 cand = cand[-1:]
             out.update(cand)
@@ -215,6 +220,15 @@ def templates():
     out.append(('//a/text()', [('desc-or-self-root', 'a'), ('child', 'text()', None)]))
     out.append(('//comment()/preceding::*', [('desc-or-self-root', 'comment()'), ('preceding', '*', None)]))
     out.append(('//text()/following-sibling::node()', [('desc-or-self-root', 'text()'), ('following-sibling', 'node()', None)]))
+    out.append(('//a/*[position()]', [('desc-or-self-root', 'a'), ('child', '*', 'position()')]))
+    out.append(('(//b)[position()]', [('desc-or-self-root', 'b')]))
+    out.append(('//a/preceding-sibling::*[position()]', [('desc-or-self-root', 'a'), ('preceding-sibling', '*', 'position()')]))
+    out.append(('//*[@k]/following::node()', [('desc-or-self-root', '*', 'haskey'), ('following', 'node()', None)]))
+    out.append(('//b[@k]/a/preceding::node()', [('desc-or-self-root', 'b', 'haskey'), ('child', 'a', None), ('preceding', 'node()', None)]))
+    out.append(('//*[@k]/preceding::*', [('desc-or-self-root', '*', 'haskey'), ('preceding', '*', None)]))
+    out.append(('//*[@k]/following::a/preceding::node()', [('desc-or-self-root', '*', 'haskey'), ('following', 'a', None), ('preceding', 'node()', None)]))
+    out.append(('//@k/..', [('desc-or-self-root', '*', 'haskey')]))
+    out.append(('//a[@k]/ancestor-or-self::*[@k]', [('desc-or-self-root', 'a', 'haskey'), ('ancestor-or-self', '*', 'haskey')]))
     out.append(('/a/b | //b/a', [('union', [[('root-child', 'a'), ('child', 'b', None)], [('desc-or-self-root', 'b'), ('child', 'a', None)]])]))
     return out
 
@@ -227,6 +241,8 @@ def model_eval(M, prog, n):
             base = ['D'] + M.desc('D')
             if len(st) == 3 and st[2] == 'childpos':
                 cur = M.step(base, 'child', st[1], 'pos', n)
+            elif len(st) == 3 and st[2] == 'haskey':
+                cur = M.step(base, 'child', st[1], 'haskey')
             else:
                 cur = M.step(base, 'child', st[1])
         elif st[0] == 'root-child':
@@ -250,8 +266,10 @@ def model_eval(M, prog, n):
 # ---------------------------------------------------------------------------------------------------
 # real trees
 
-def build(P, tags, with_comment, with_text):
+def build(P, tags, with_comment, with_text, keyed=()):
     els = [ET.Element(t) for t in tags]
+    for i in keyed:
+        els[i].set('k', 'v')
     for i, p in enumerate(P):
         if p >= 0:
             els[p].append(els[i])
@@ -278,7 +296,7 @@ def ident(res, els, c, doc):
 
 
 def snapshot(els):
-    return [(e.tag, e.text, e.tail, [id(k) for k in e]) for e in els]
+    return [(e.tag, dict(e.attrib), e.text, e.tail, [id(k) for k in e]) for e in els]
 
 
 PARSED = {}
@@ -293,11 +311,12 @@ def tokens(expr, tier):
     return PARSED[key]
 
 
-def run_case(P, expr, prog, tags, n, with_comment, with_text, tier='quick'):
-    els, c = build(P, tags, with_comment, with_text)
+def run_case(P, expr, prog, tags, n, with_comment, with_text, tier='quick', k1=False, k3=False):
+    keyed = [i for i, f in ((1, k1), (len(P) - 1, k3)) if f and i < len(P)]
+    els, c = build(P, tags, with_comment, with_text, keyed)
     doc = ET.ElementTree(els[0])
     before = snapshot(els)
-    M = Model(P, tags, with_comment, with_text)
+    M = Model(P, tags, with_comment, with_text, keyed)
     want = model_eval(M, prog, n)
     for tok in tokens(expr, tier):
         r = tok.evaluate(XPathContext(doc, variables={'n': n}))
@@ -344,14 +363,16 @@ def case_{k}({targs}, n: int{extra_args}) -> bool:
     pre: all(len(t) == 1 and 'a' <= t <= 'c' for t in ({tnames},))
     post: _
     """
-    return run_case({P}, {expr!r}, PROGS[{expr!r}], [{tnames}], n, {wc}, {wt}, TIER)
+    return run_case({P}, {expr!r}, PROGS[{expr!r}], [{tnames}], n, {wc}, {wt}, TIER{kargs})
 '''
 _pairs, PROGS = family()
 for _k, (_P, _expr, _mode) in enumerate(_pairs):
     _names = ['t%d' % i for i in range(len(_P))]
     _sym = _mode == 'symbolic'
+    _keyed = '@k' in _expr
     define(_SRC.format(budget=90 if TIER == 'quick' else (120 if not _sym else 80), P=tuple(_P), expr=_expr, k=_k,
                        bound='shape %s (comment and text node %s), template %s: every labelling over {a,b,c}, $n any integer' % (
                            tuple(_P), _mode, _expr), targs=', '.join('%s: str' % x for x in _names),
-                       tnames=', '.join(_names), extra_args=', wc: bool, wt: bool' if _sym else '',
+                       tnames=', '.join(_names), extra_args=(', wc: bool, wt: bool' if _sym else '') + (', k1: bool, k3: bool' if _keyed else ''),
+                       kargs=', k1, k3' if _keyed else '',
                        wc='wc' if _sym else 'True', wt='wt' if _sym else 'True'), globals())
